@@ -13,10 +13,17 @@ import Cx.Proofs.FastCex
     checked by the matcher (`wildcardOK`).  The composite theorem keeps two hypotheses that are invariants of
     `syntax.Parse` output, not restrictions of the fragment: `RepeatOK` (`n ≤ m` in `{n,m}`) and `ClassSorted` (`Rune`
     ascending — the Go predicate tests only the LAST rune of a class against U+007F).
-  * BranchDispatcher, ExtractFirstBytes: the predicate still accepts more than the fragment (case folding, Latin-1 runes
-    used as bytes, a trailing concatenation after the dispatched alternation, …); the hypothesis the proof forced is the
-    defect, and a `decide`-checked counterexample theorem is kept in `Cx.Proofs.FastCex` (each replayed on the real code
-    by the C19 check → known findings).  Hence the `_partial` names there.
+  * BranchDispatcher: after the rewrite of nfa/branch_dispatch.go (and of the `altPart` selection in meta/compile.go) the
+    dispatcher is exact on EVERY pattern `IsBranchDispatchPattern` accepts, with respect to the reference semantics of the
+    WHOLE pattern `\A(b1|…|bk)` (not merely of a list of branch matchers): no fragment hypothesis is left, hence no
+    `_partial`.  The two remaining hypotheses do not restrict the dispatcher: `FoldSound hasFold` is a fact about
+    `unicode.SimpleFold` (the model's parameter `hasFold` is `true` at least on the ASCII letters, the only runes the
+    reference matcher folds), `RefDepthOK re` is the depth (32) up to which the reference matcher's fuel estimate sees the
+    pattern.  Both are shown necessary by `decide` witnesses (`branchDispatch_foldSound_needed`, `branchDispatch_depth_needed`).
+  * ExtractFirstBytes: the predicate still accepts more than the fragment (case folding, Latin-1 runes used as bytes,
+    …); the hypothesis the proof forced is the defect, and a `decide`-checked counterexample theorem is kept in
+    `Cx.Proofs.FastCex` (each replayed on the real code by the C19 check → known findings).  Hence the `_partial` name
+    there.
   The witnesses of the fixed defects are kept in `Cx.Proofs.FastCex` as `…_fixed` theorems (pattern now rejected, or
   matcher now agrees with the reference).
   `Ref.refFind` is the general leftmost-first reference matcher over the AST (`Cx.Spec.ReRef`), validated against regexp.
@@ -61,14 +68,39 @@ theorem C19_anchoredLiteral_partial (re : Re) (info : AnchoredLiteralInfo) (hd :
     ∀ a, anchoredFindAt h info a = anchoredFindSpec (wildcardDotNL re) info h a :=
   anchoredLiteral_exact re info hd h
 
-/-- BranchDispatcher (`\A(b1|…|bk)`): first matching branch in order, on the fragment `bdFrag`
-    (nothing after the alternation, branches = case-sensitive ASCII literal or greedy ASCII `cls+`) -/
-theorem C19_branchDispatcher_partial (re : Re) (d : BranchDispatcher) (hd : metaBranchDispatcher re = some d)
-    (frag : bdFrag re = true) :
-    d.WF ((bdBranches re).map branchOf) ∧
-    (∀ h, d.search h = altFind ((bdBranches re).map branchOf) h) ∧
-    (∀ h, d.isMatch h = (altFind ((bdBranches re).map branchOf) h).isSome) :=
-  branchDispatcher_exact re d hd frag
+/-- BranchDispatcher (`\A(b1|…|bk)`, the alternation optionally inside capture groups): on EVERY pattern
+    `IsBranchDispatchPattern` accepts, meta builds a dispatcher (it never falls back), and on every haystack that dispatcher
+    returns exactly the leftmost-first match of the WHOLE pattern as the general reference matcher computes it — `Search`
+    (offset 0), meta's `findIndicesBranchDispatchAt` (any offset), and `IsMatch`.
+    `hf`: `hasFold` stands for `unicode.SimpleFold(r) != r` and must be `true` on the ASCII letters (it is; the driver's
+    table is checked in `Cx.DriverFast.hasSimpleFold_sound`); `hdepth`: the AST is at most 32 levels deep, the depth to
+    which the reference matcher's fuel estimate measures it.  Neither restricts the dispatcher
+    (`branchDispatch_foldSound_needed`, `branchDispatch_depth_needed` in Cx.Proofs.FastCex). -/
+theorem C19_branchDispatcher (hasFold : Nat → Bool) (hf : FoldSound hasFold) (re : Re)
+    (hok : isBranchDispatchPattern hasFold re = true) (hdepth : RefDepthOK re) :
+    ∃ d, metaBranchDispatcher hasFold re = some d ∧
+      (∀ h, d.search h = Ref.refFind re h 0) ∧
+      (∀ h a, d.searchAt h a = Ref.refFind re h a) ∧
+      (∀ h, d.isMatch h = (Ref.refFind re h 0).isSome) := by
+  rw [isBranchDispatchPattern_eq, Option.isSome_iff_exists] at hok
+  obtain ⟨d, hd⟩ := hok
+  refine ⟨d, hd, fun h => ?_, fun h a => branchDispatcher_eq_reference hasFold hf re d hd hdepth h a,
+    fun h => branchDispatcher_isMatch_eq_reference hasFold hf re d hd hdepth h⟩
+  have := branchDispatcher_eq_reference hasFold hf re d hd hdepth h 0
+  simpa [BranchDispatcher.searchAt] using this
+
+/-- why the answer cannot depend on branch order or on greedy/lazy preference: the dispatcher's tables describe matchers
+    `ms` of the branches (`WF`), at most one of which matches a given haystack at offset 0, and `Search` returns that
+    one — equivalently the first one in order. -/
+theorem C19_branchDispatcher_unique (hasFold : Nat → Bool) (alt : Re) (d : BranchDispatcher)
+    (hd : newBranchDispatcher hasFold alt = some d) :
+    ∃ ms, d.WF ms ∧
+      (∀ h, d.search h = (ms.findSome? fun m => m.matchFrom h 0).map fun e => (0, e)) ∧
+      (∀ (h : Bytes) (i j : Nat) (mi mj : BranchMatcher) (ei ej : Nat), ms[i]? = some mi → ms[j]? = some mj →
+        mi.matchFrom h 0 = some ei → mj.matchFrom h 0 = some ej → i = j) := by
+  obtain ⟨_, ms, _, wf⟩ := newBranchDispatcher_wf hasFold alt d hd
+  exact ⟨ms, wf, fun h => BranchDispatcher.search_eq_first d ms wf h,
+    fun h i j mi mj ei ej hi hj h1 h2 => BranchDispatcher.match_unique d ms wf h i j mi mj hi hj ei ej h1 h2⟩
 
 /-- first-byte rejection filter: on the fragment `fbFrag` every match of the pattern at offset 0 starts with a byte of the set -/
 theorem C19_firstBytes_partial (re : Re) (fb : FirstByteSet) (hx : extractFirstBytes re = some fb)
